@@ -56,11 +56,25 @@ def run(ctx):
     cfg = CFG(f.node)
     src = " ".join(norm(f.node).split())
 
+    def is_meta_expr(e, depth=0):
+        t = norm(e)
+        if "'name': 'meta'" in t and "(None, 'charset')" in t and "encoding" in t:
+            return True
+        # a helper that builds the token
+        if depth == 0 and isinstance(e, ast.Call):
+            fn = e.func
+            nm = fn.attr if isinstance(fn, ast.Attribute) else fn.id if isinstance(fn, ast.Name) else None
+            for h in f.module.all_functions:
+                if h.name == nm:
+                    return any(isinstance(x, ast.Return) and x.value is not None and is_meta_expr(x.value, 1) for x in ast.walk(h.node))
+        return False
+
     def yields_meta(n):
         return n.kind == "stmt" and isinstance(n.ast, ast.Expr) and isinstance(n.ast.value, ast.Yield) and \
-            "'name': 'meta'" in norm(n.ast) and "(None, 'charset'): self.encoding" in norm(n.ast)
+            n.ast.value.value is not None and is_meta_expr(n.ast.value.value)
     metas = [n for n in cfg.stmt_nodes() if yields_meta(n)]
-    r.check("R15.2", len(metas) == 2, "two-injection-sites", f.where, "expected an injection for an empty head and one at </head>; found %d" % len(metas))
+    r.idiom("R15.2", len(metas) == 2, "two-injection-sites", f.where, "expected an injection for an empty head and one at </head>; found %d" % len(metas),
+            wrong=[(len(metas) == 1 and "meta" in src, "only one of the two injection sites (empty head / </head>) is left")])
     for m in metas:
         dom = cfg.dominated_by(m, lambda n, lab: n.kind == "test" and norm(n.ast) == "meta_found" and lab is False)
         r.check("R15.2", dom, "inject-only-if-not-found@%d" % metas.index(m), "%s:%d" % (REL, m.lineno),
@@ -68,8 +82,9 @@ def run(ctx):
     # at </head>: when not found the injection happens on every path before the flush loop ends
     end_arm = [n for n in cfg.nodes if n.kind == "test" and norm(n.ast) == "pending"]
     flush = [n for n in cfg.stmt_nodes() if n.kind == "stmt" and norm(n.ast) == "yield pending.pop(0)"]
-    r.check("R15.2", len(flush) == 2 and "while pending: yield pending.pop(0)" in src, "flush-pending", f.where,
-            "buffered head tokens are not flushed completely at </head>")
+    r.idiom("R15.2", len(flush) == 2 and "while pending: yield pending.pop(0)" in src, "flush-pending", f.where,
+            "buffered head tokens are not flushed completely at </head>",
+            wrong=[("while pending" not in src and "for " + "x in pending" not in src and len(flush) <= 1, None)])
     after = [n for n in cfg.stmt_nodes() if n.kind == "stmt" and norm(n.ast) == "state = 'post_head'"]
     if after:
         bad = cfg.must_precede(after, lambda n: n.kind == "test" and norm(n.ast) == "meta_found")
@@ -80,9 +95,10 @@ def run(ctx):
     # rewrite of existing declarations
     rew = [n for n in cfg.stmt_nodes() if n.kind == "stmt" and isinstance(n.ast, ast.Assign) and norm(n.ast.targets[0]).startswith("token['data'][")]
     texts = sorted(norm(n.ast) for n in rew)
-    r.check("R15.2", texts == ["token['data'][None, 'content'] = 'text/html; charset=%s' % self.encoding",
+    r.idiom("R15.2", texts == ["token['data'][None, 'content'] = 'text/html; charset=%s' % self.encoding",
                                "token['data'][namespace, name] = self.encoding"], "rewrites", f.where,
-            "existing declarations are not rewritten to the requested encoding: %s" % texts)
+            "existing declarations are not rewritten to the requested encoding: %s" % texts,
+            wrong=[(len(texts) < 2, None)])
     for n in rew:
         if "charset=%s" in norm(n.ast):
             dom = cfg.dominated_by(n, lambda m, lab: m.kind == "test" and norm(m.ast) == "has_http_equiv_content_type" and lab is True)
@@ -115,11 +131,12 @@ def run(ctx):
     last = loop.body[-1]
     ok = isinstance(last, ast.If) and norm(last.test) == "state == 'in_head'" and [norm(s) for s in last.body] == ["pending.append(token)"] \
         and [norm(s) for s in last.orelse] == ["yield token"]
-    r.check("R15.2", ok, "every-token-kept", "%s:%d" % (REL, last.lineno), "a source token can be dropped: the loop does not end with buffer-or-yield")
+    r.idiom("R15.2", ok, "every-token-kept", "%s:%d" % (REL, last.lineno), "a source token can be dropped: the loop does not end with buffer-or-yield",
+            wrong=[(isinstance(last, ast.If) and norm(last.test) == "state == 'in_head'" and not ok, None)])
     conts = [n for n in cfg.stmt_nodes() if n.kind == "stmt" and False]
     n_cont = sum(1 for n in ast.walk(loop) if isinstance(n, ast.Continue) and not any(
         isinstance(a, ast.For) and a is not loop and any(x is n for x in ast.walk(a)) for a in ast.walk(loop)))
-    r.check("R15.2", n_cont == 1 and "yield {'type': 'EndTag', 'name': 'head'} meta_found = True continue" in src, "continue-only-after-replacement",
+    r.idiom("R15.2", n_cont == 1 and "yield {'type': 'EndTag', 'name': 'head'} meta_found = True continue" in src, "continue-only-after-replacement",
             f.where, "a `continue` skips the buffer-or-yield step other than after replacing an empty head (%d)" % n_cont)
     init = repo.func(REL, "Filter.__init__")
     r.check("R15.2", any(norm(s) == "self.encoding = encoding" for s in init.node.body), "encoding-stored", init.where, "the filter does not keep the requested encoding")
